@@ -17,6 +17,16 @@ ENGINES = {
             "intr-nodef": NODEF + ["--features", "prefer_intrinsics"],
         },
     },
+    "stock": {
+        "dir": "engines/stock", "bin": "vstock", "env": {"RUSTFLAGS": ""},
+        "configs": {
+            "best": [],
+            "no_avx512": ["--features", "no_avx512"],
+            "no_avx2": ["--features", "no_avx512,no_avx2"],
+            "no_sse41": ["--features", "no_avx512,no_avx2,no_sse41"],
+            "no_sse2": ["--features", "no_avx512,no_avx2,no_sse41,no_sse2"],
+        },
+    },
     "b3sum": {
         "dir": "engines/b3sum", "bin": "vb3",
         "configs": {"default": []},
@@ -32,10 +42,49 @@ def simple(engine, cfg, **kw):
     return runs
 
 
+C04_PROPS = ["C01", "C02", "C03", "C09"]
+C04_QUICK = ["asm-default", "intr-all", "pure-nodef"]
+C04_ALL = ["asm-default", "asm-all", "asm-nodef", "intr-default", "intr-all", "intr-nodef", "pure-default", "pure-all", "pure-nodef"]
+
+
+def c04_runs(tier):
+    runs = []
+    for cfg in (C04_ALL if tier == "thorough" else C04_QUICK):
+        for p in C04_PROPS:
+            runs.append({"engine": "core", "cfg": cfg, "prop": p, "tag": p})
+    if tier == "thorough":
+        for cfg in ["best", "no_avx512", "no_avx2", "no_sse41", "no_sse2"]:
+            runs.append({"engine": "stock", "cfg": cfg, "prop": "C04", "tag": "stock"})
+    return runs
+
+
+def c04_post(merged, reports, tier):
+    """Ledger equality: the same fixed case set must give the same digests at a given SIMD level in every
+    build, and a hook-forced level must equal upstream's own no_* feature build (guard off)."""
+    per_level = {}
+    for r in reports:
+        for lvl, val in (r.get("ledger") or {}).items():
+            per_level.setdefault(lvl, []).append((str(r.get("configs")), val))
+        for lvl, val in (r.get("stock_ledger") or {}).items():
+            per_level.setdefault(lvl, []).append(("stock build, guard off", val))
+    merged["ledger_levels_compared"] = {k: len(v) for k, v in per_level.items()}
+    merged["counters"]["ledger_cells"] = sum(len(v) for v in per_level.values())
+    for lvl, vals in per_level.items():
+        if len(set(v for _, v in vals)) > 1:
+            merged["violations"].append({
+                "key": "ledger:level-%s-differs-across-builds" % lvl,
+                "summary": "the fixed one-shot case set hashes differently at level %s in different builds: %s" % (lvl, vals),
+                "replay": {"property": "C04", "ledger": vals},
+            })
+    merged.pop("ledger", None)
+    merged.pop("stock_ledger", None)
+
+
 PLANS = {
     "C01": {"level": "exploration", "runs": simple("core", "asm-default")},
     "C02": {"level": "model_checking", "runs": simple("core", "asm-default")},
     "C03": {"level": "model_checking", "runs": simple("core", "asm-default")},
+    "C04": {"level": "exploration", "runs": c04_runs, "post": c04_post},
     "C09": {"level": "exploration", "runs": simple("core", "asm-default")},
     "C10": {"level": "model_checking", "runs": simple("core", "asm-default")},
     "C12": {"level": "fault_enumeration", "runs": simple("b3sum", "default")},
